@@ -121,8 +121,8 @@ class StmtMixin(object):
                 s = to_real(s)
             if ty == BOOL and s.ty != BOOL:
                 s = s.ne(0)
-            if is_const and s.is_const():
-                self.bind(name, s)       # compile-time constant: no storage
+            if s.is_const() and (is_const or (not is_ref and self.never_assigned(d))):
+                self.bind(name, s)       # compile-time constant (const, or never assigned after its declaration): no storage
                 return
             var = self.new_scalar(name, ty)
             self.assign(var.lv(), s)
@@ -220,6 +220,46 @@ class StmtMixin(object):
             self.bind(name, m)
             return
         fail(d, 'no declaration rule for type %r' % td)
+
+    def never_assigned(self, vd):
+        """true if the local declared by vd is never the target of =, op=, ++, -- and never has its address taken or is
+        bound to a non-const reference parameter anywhere in the enclosing top-level function"""
+        root = self.top_node if self.inline_depth == 0 else None
+        if root is None:
+            return False
+        cache = root.setdefault('_assigned_ids', None)
+        if cache is None:
+            cache = set()
+
+            def target_ids(n, acc):
+                k = n.get('kind')
+                if k in TRANSPARENT or k in ('ParenExpr',):
+                    for c in kids(n):
+                        target_ids(c, acc)
+                elif k == 'DeclRefExpr':
+                    rid = n.get('referencedDecl', {}).get('id')
+                    if rid:
+                        acc.add(rid)
+
+            def walk(n):
+                if not isinstance(n, dict):
+                    return
+                k = n.get('kind')
+                if k in ('BinaryOperator', 'CompoundAssignOperator') and n.get('opcode', '').endswith('=') and n.get('opcode') not in ('==', '!=', '<=', '>='):
+                    target_ids(kids(n)[0], cache)
+                elif k == 'UnaryOperator' and n.get('opcode') in ('++', '--', '&'):
+                    target_ids(kids(n)[0], cache)
+                elif k in ('CallExpr', 'CXXMemberCallExpr', 'CXXOperatorCallExpr', 'CXXConstructExpr', 'LambdaExpr'):
+                    # arguments might bind to non-const references: be conservative for plain variables passed directly
+                    for c in kids(n)[1:] if k != 'CXXConstructExpr' else kids(n):
+                        cc = c
+                        if cc.get('kind') == 'DeclRefExpr' and cc.get('valueCategory') == 'lvalue':
+                            target_ids(cc, cache)
+                for c in n.get('inner') or []:
+                    walk(c)
+            walk(root)
+            root['_assigned_ids'] = cache
+        return vd.get('id') not in cache
 
     def same_td(self, v, td):
         if isinstance(v, StoreMat):
@@ -410,7 +450,7 @@ class StmtMixin(object):
             fail(cond_n, 'loop condition with side effects')
         ns = self.namespace()
         self.block = []
-        self.emit(Ghost('body_begin'))
+        self.emit(Ghost('loop%s.body_begin' % n.get('_ord')))
         self.loop_keys.append((n.get('_ord'), 'sym'))
         try:
             self.scoped(body_n)
@@ -419,7 +459,7 @@ class StmtMixin(object):
         if lab[1]:
             self.emit(Label(lab[0]))
         self.dead = False
-        self.emit(Ghost('body_end'))
+        self.emit(Ghost('loop%s.body_end' % n.get('_ord')))
         body = self.block
         self.block = []
         self.ev(inc_n)
@@ -430,6 +470,10 @@ class StmtMixin(object):
         lp.ns = ns
         lp.uservar = var
         self.emit(lp)
+        g = Ghost('loop%s.after' % n.get('_ord'))
+        g.ns = self.namespace()
+        g.fname = self.frame.fname
+        self.emit(g)
 
     def range_for(self, n):
         # CXXForRangeStmt: [init?] range decl, begin, end, cond, inc, loopvar decl, body
@@ -470,7 +514,7 @@ class StmtMixin(object):
             else:
                 self.bind(name, seq.elem(cvar.rd()))
             ns = self.namespace()
-            self.emit(Ghost('body_begin'))
+            self.emit(Ghost('loop%s.body_begin' % n.get('_ord')))
             self.loop_keys.append((n.get('_ord'), 'sym'))
             try:
                 self.scoped(body)
@@ -479,7 +523,7 @@ class StmtMixin(object):
             if lab[1]:
                 self.emit(Label(lab[0]))
             self.dead = False
-            self.emit(Ghost('body_end'))
+            self.emit(Ghost('loop%s.body_end' % n.get('_ord')))
             bodyb = self.block
             self.block = outer
             self.frame.continue_label = saved_cont
@@ -528,6 +572,17 @@ class StmtMixin(object):
             return
         if isinstance(rv, Mat):
             R, C = cint(rv.R), cint(rv.C)
+            if fr.ret_slot is None:
+                try:
+                    this = fr.this
+                    rtd = resolve(getattr(fr, 'ret_type', 'auto'), self.tenv(this.cls, this.cfg))
+                except Exception:
+                    rtd = None
+                if rtd is not None and rtd.kind == 'mat' and rtd.R is None and rtd.C is not None:
+                    fr.ret_slot = self.make_value(rtd, self.fresh('ret_' + fr.fname.split('.')[-1]))
+            if isinstance(fr.ret_slot, StoreMat):
+                self.mat_assign(fr.ret_slot, rv, '=', n)
+                return
             if R is not None and C is not None:
                 if fr.ret_slot is None:
                     fr.ret_slot = self.declare(SmallMat(self.fresh('ret_' + fr.fname.split('.')[-1]), R, C))
@@ -599,6 +654,8 @@ class StmtMixin(object):
             ns[p.get('name')] = v
         rt = m['type']['qualType'].split('(')[0].strip()
         ret = None
+        if m.get('kind') == 'CXXConstructorDecl':
+            rt = 'void'
         if rt != 'void':
             td = resolve(rt, tenv)
             ret = self.make_value(td, self.fresh('res_' + m['name']))
@@ -643,7 +700,8 @@ class StmtMixin(object):
             elif td.kind == 'ptr':
                 v = self.declare(PtrSlot('p_' + pname, td.to))
             elif td.kind == 'enum':
-                v = EnumV(td.name, self.declare(ScalarVar('p_' + pname, INT)).rd())
+                sv = self.declare(ScalarVar('p_' + pname, INT))
+                v = EnumV(td.name, E.const(self.pins['p_' + pname]) if ('p_' + pname) in self.pins else sv.rd())
             else:
                 v = self.make_value(td, 'p_' + pname)
             params[pname] = v
